@@ -488,6 +488,9 @@ def line_seg_pt_intersect_at_dim(
         return None
 
     point_on_line = P1 + t * (P2 - P1)
+    # By construction the intersection has the target's coordinate in the search dimension; do not let
+    # rounding in P1 + t * (P2 - P1) move it by an ulp (it is compared with the target afterwards).
+    point_on_line[target_dim] = target_pt[target_dim]
     return point_on_line
 
 
